@@ -105,22 +105,22 @@ def timerClosure (wf : Nat) : Nat → List Sys.State → List Sys.State
 
 /-- keep one representative per (observation-relevant) state: compare by a printed digest -/
 def digest (s : Sys.State) : String :=
-  s!"{repr s.orch}|{repr s.queue}|{s.timers}|{s.rtDeadlineFired}{s.agDeadlineFired}{s.graceFired}|{repr s.flights}|{repr s.resv}|{repr s.procs}|{repr s.agents}|{repr s.rt}|{s.rtFlag}|{repr s.renderer}|{s.fatal}|{repr s.initChan}|{s.doneChan}|{s.cached}|{s.gen}|{s.initDone}|{s.cancelDone}|{repr s.initFlow}|{repr s.invFlow}|{s.crashed}|{repr s.pending}|{s.regOn}|{s.killQueue}|{s.restoreWaiting}|{s.credKey}"
+  s!"{repr s.orch}|{repr s.queue}|{repr s.timers}|{s.rtDeadlineFired}{s.agDeadlineFired}{s.graceFired}|{repr s.flights}|{repr s.resv}|{repr s.procs}|{repr s.agents}|{repr s.rt}|{s.rtFlag}|{repr s.renderer}|{s.fatal}|{repr s.initChan}|{s.doneChan}|{s.cached}|{s.gen}|{s.initDone}|{s.cancelDone}|{repr s.initFlow}|{repr s.invFlow}|{s.crashed}|{repr s.pending}|{s.regOn}|{s.killQueue}|{s.restoreWaiting}|{s.credKey}"
 
 def dedupStates (l : List OState) : List OState :=
   l.foldl (fun acc o => if acc.any (fun p => digest p.s == digest o.s && p.lastRt == o.lastRt && p.aliases == o.aliases) then acc else acc ++ [o]) []
 
 def updLastRt (o : OState) (s : Sys.State) : OState :=
   -- the harness remembers the id of the latest `rt.next=200,id#k,…` answer
-  let hit := s.out.filterMap fun e =>
+  let hit := s.outs.filterMap fun e =>
     if e.startsWith "rt.next=200,id#" then
       (((e.drop 15).toString.splitOn ",").head?.bind String.toNat?)
     else none
   { s := s, lastRt := (match hit.getLast? with | some k => some k | none => o.lastRt),
-    aliases := assignAliases o.aliases s.out }
+    aliases := assignAliases o.aliases s.outs }
 
 def obsWith (al : List (Nat × Nat)) (s : Sys.State) : String :=
-  let xs := ((s.out.map (rewriteIds al)).toArray.qsort (· < ·)).toList
+  let xs := ((s.outs.map (rewriteIds al)).toArray.qsort (· < ·)).toList
   " ; ".intercalate xs ++ " | blocked=" ++ blockedStr s
 
 def sysModel : NModel where
@@ -147,8 +147,10 @@ def sysModel : NModel where
       -- … or while the request was in flight: the server processed it, the client saw an abort
       let all := all ++ (match actor with
         | some (a, c) => all.filterMap fun s =>
-            if (procOf s a).isNone && s.out.any (fun e => e.startsWith s!"{a}.{c}=" && !e.endsWith "=aborted") then
-              some { s with out := s.out.map fun e => if e.startsWith s!"{a}.{c}=" then s!"{a}.{c}=aborted" else e }
+            if (procOf s a).isNone && s.outs.any (fun e => e.startsWith s!"{a}.{c}=" && !e.endsWith "=aborted") then
+              some { s with out := s.out.map fun o => match o with
+                | .line e => if e.startsWith s!"{a}.{c}=" then .line s!"{a}.{c}=aborted" else .line e
+                | o => o }
             else none
         | none => [])
       all.map fun s => let o' := updLastRt o s; (o', obsWith o'.aliases s)
